@@ -357,6 +357,15 @@ static void make_case(const std::string &prop, uint64_t base_seed, uint64_t inde
   c.rc.sched_seed   = mix(run_seed, 3);
   c.rc.entropy_seed = mix(run_seed, 4);
   g_engine.generate(prop, wl, fl, c);
+  // allocator seam: unless the engine decided itself, a quarter of the runs hand a freed
+  // address out again at once (own stream: the engine's draws are not shifted)
+  Rng al(mix(run_seed, 5));
+  bool decided = false;
+  for (auto &k : c.knobs)
+    if (k.first == "alloc_lifo")
+      decided = true;
+  if (!decided && al.chance(0.25))
+    c.set("alloc_lifo", 1);
 }
 
 // ---------------------------------------------------------- running a case
@@ -377,14 +386,24 @@ struct Outcome
 
 static const Case *g_cur_case = nullptr;
 
+// allocator seam (sim/alloc.cc): knob alloc_lifo of a case = immediate address reuse
+namespace vsim
+{
+void alloc_begin_run(bool lifo);
+uint64_t alloc_end_run();
+}  // namespace vsim
+
 static Outcome run_inproc(const Case &c)
 {
   g_reported.clear();
   g_cur_case = &c;
   Outcome o;
+  vsim::alloc_begin_run(c.knob("alloc_lifo", 0) != 0);
   o.rr       = vsim::run(c.rc, [&c]() { g_engine.body(c); });
   o.sw_in_op = vsim::switches_in_op();
   g_engine.check(c, o.rr);
+  if (vsim::alloc_end_run() > 0)
+    vsim::probe("alloc.address_reused_run");
   o.violations = g_reported;
   g_cur_case   = nullptr;
   return o;
